@@ -601,7 +601,7 @@ func init() {
 		Run:             c07Run,
 		Replay:          c07Replay,
 		QuickBudget:     150 * time.Second,
-		ThoroughBudget: 15 * time.Minute,
+		ThoroughBudget: 8 * time.Minute,
 		HangIsViolation: true,
 		HangLimit:       15 * time.Second,
 	})
